@@ -501,6 +501,6 @@ def _run_with_sources(c, csv_dir, sources, signals_factory=None, alpha_factory=N
         except Exception as e:
             out.failure = (type(e).__name__, minutes(sess.broker.current_dt))
         _m, fills = ob.take()
-    out.curve = [(minutes(t), Fraction(float(v))) for t, v in sess.equity_curve]
-    out.fills = [(minutes(f["t"]), f["asset"], int(f["qty"]), Fraction(float(f["px"])), Fraction(float(f["comm"]))) for f in fills]
+    out.curve = [(minutes(t), sr.fx(v)) for t, v in sess.equity_curve]
+    out.fills = [(minutes(f["t"]), f["asset"], int(f["qty"]), sr.fx(f["px"]), sr.fx(f["comm"])) for f in fills]
     return out
